@@ -15,7 +15,7 @@ EXTENDS Integers, Sequences, FiniteSets, TLC
 
 CONSTANTS Values,              \* set of <<num, den>>: the values a metric may take
           D,                   \* common denominator; a divisor or a multiple of 10^5
-          Variants,            \* set of [eb, ec, shift, proc]: structure of the two races
+          Variants,            \* set of [eb, ec, nb, nc, shift, proc]: structure of the two races (entities, naming modes)
           AbsBaseline,         \* TRUE: repaired (relative difference divides by |baseline|); FALSE: current code (divides by baseline)
           ZeroBaselineSigned   \* TRUE: repaired (change from a zero baseline is a signed, coloured "inf%"); FALSE: current code ("0.00%" neutral)
 
@@ -80,6 +80,32 @@ Dir(i) == IF SlotSeq[i].g = "throughput" \/ (SlotSeq[i].g = "transform" /\ SlotS
 
 IsDisk(i) == SlotSeq[i].g = "disk"
 DiskTotal(i) == CHOOSE j \in Slots : SlotSeq[j].g = "disk" /\ SlotSeq[j].k = SlotSeq[i].k /\ SlotSeq[j].s = "total"
+(***************************************************************************)
+(* Names.  Entity e is task t<e> in every race; ML job j<e>, transform x<e>.*)
+(* R.nm selects how the op_metrics records of a race name task and          *)
+(* operation and in which order they are stored (NamingSeq[R.nm + 1]):      *)
+(* the per-task rows of task t<e> show the values stored for THAT record,   *)
+(* whatever the operation names are - also when a task's name is the        *)
+(* operation name of another, differently named task (a track that runs     *)
+(* one operation twice and names only one of the tasks), in either order,   *)
+(* and for records without a task name (before Rally 0.8.0: task = the      *)
+(* operation name).  t<e> = "" means: the record has no "task" key.         *)
+(***************************************************************************)
+Nm(t1, o1, t2, o2, rev) == [t1 |-> t1, o1 |-> o1, t2 |-> t2, o2 |-> o2, rev |-> rev]
+NamingSeq == << Nm("t1", "op1", "t2", "op2", FALSE),    \* 0 plain
+                Nm("t1", "t2", "t2", "t2", FALSE),      \* 1 task t2 is named like the operation of the EARLIER task t1
+                Nm("t1", "t1", "t2", "t1", FALSE),      \* 2 task t1 is named like the operation of the LATER task t2
+                Nm("t1", "t2", "t2", "t2", TRUE),       \* 3 as 1, records stored in the order t2, t1
+                Nm("t1", "t1", "t2", "t1", TRUE),       \* 4 as 2, records stored in the order t2, t1
+                Nm("", "t1", "", "t2", FALSE) >>        \* 5 records without task name
+NamingModes == 0..(Len(NamingSeq) - 1)
+(* the task a per-task row belongs to is identified by the task name alone *)
+TaskNameOf(nm, e) == LET r == NamingSeq[nm + 1]
+                         t == IF e = 1 THEN r.t1 ELSE r.t2
+                         o == IF e = 1 THEN r.o1 ELSE r.o2
+                     IN IF t = "" THEN o ELSE t
+NamesIdentifyEntities == \A nm \in NamingModes : TaskNameOf(nm, 1) = "t1" /\ TaskNameOf(nm, 2) = "t2"
+
 Exists(R, i) == SlotSeq[i].e = 0 \/ SlotSeq[i].e \in R.E
 Recorded(R, i) == Exists(R, i) /\ R.v[i] # NA
 (* per-field disk usage: the reporter's convention is "not recorded = 0 bytes" *)
@@ -262,14 +288,14 @@ vars == <<pair, variant, B, C, out, done>>
 ValuesNA == {Scale(q) : q \in Values} \cup {NA}
 
 (* every slot gets the pair (pair[1], pair[2]); every other slot gets it the other way round *)
-Build(E, x, y, shift) == [E |-> E, v |-> [i \in Slots |-> IF (i + shift) % 2 = 0 THEN x ELSE y]]
+Build(E, nm, x, y, shift) == [E |-> E, nm |-> nm, v |-> [i \in Slots |-> IF (i + shift) % 2 = 0 THEN x ELSE y]]
 
 NoOut == [rows |-> 0, improve |-> 0, regress |-> 0, neutral |-> 0]
 
 Init == /\ pair \in ValuesNA \X ValuesNA
         /\ variant \in Variants
-        /\ B = Build(variant.eb, pair[1], pair[2], variant.shift)
-        /\ C = Build(variant.ec, pair[2], pair[1], variant.shift)
+        /\ B = Build(variant.eb, variant.nb, pair[1], pair[2], variant.shift)
+        /\ C = Build(variant.ec, variant.nc, pair[2], pair[1], variant.shift)
         /\ out = NoOut
         /\ done = FALSE
 
